@@ -148,6 +148,21 @@ impl<State, B> Call<State, B> {
         })
     }
 
+    /// Proceed to receiving a response without the request body being sent.
+    ///
+    /// This is for when a server rejects the body of an `expect: 100-continue` request.
+    pub(crate) fn into_receive_skip_body(self) -> Call<RecvResponse, B> {
+        Call {
+            request: self.request,
+            analyzed: self.analyzed,
+            state: BodyState {
+                phase: Phase::RecvResponse,
+                ..self.state
+            },
+            _ph: PhantomData,
+        }
+    }
+
     pub(crate) fn amended(&self) -> &AmendedRequest<B> {
         &self.request
     }
